@@ -167,10 +167,20 @@ PROPS["C11"] = dict(
     assumptions=["file names are judged in the canonical lower-case form the node writes itself", "progress is fabricated by writing checkpoints into headers (no table data is needed for indexing)"],
 )
 
+PROPS["C09"] = dict(
+    pkgs=[CAP], level="exploration", death_is_violation=True, engine="rapid-harness+gate-scheduler",
+    quick=dict(checks=4800, shards=16, timeout=600),
+    thorough=dict(checks=80000, shards=16, timeout=2400),
+    technique="stateful property-based testing with an owned schedule: rapid generates sequences of API actions, plotter gate releases (hook H3) and scripted plot outcomes; invariants and the documented transition relation are checked under the state lock after every step",
+    level_text="The plotter goroutine is parked at every step until the generated schedule releases it, plots are scripted (complete/abort), so the interleavings of requests with plotter steps are explored systematically by generation rather than left to the Go scheduler; every observation is judged against invariants and the documented transition table. Exploration over schedules of <=22 steps and <=3 spaces.",
+    level_note="Trusted: the scripted plot-DB backend mirrors MassDBV1's contract (Plot blocks until outcome or stop, StopPlot waits, Delete refuses while plotting); the model in zz_verif_c09_test.go. The chia keeper (skchia) shares the design but only ready/mining are reachable there; it is not instantiated.",
+    assumptions=["requests queued at the moment the keeper is stopped may be dropped or kept (unspecified): the model accepts both", "skchia is not instantiated by this check"],
+)
+
 META = dict(
     na_default="check not built yet in this session (work in progress; see DESIGN.md §4) - not a claim that the technique cannot apply",
     hooks=dict(guard="verif", enable="go test -tags verif (the driver ./check always builds with -tags verif through -overlay/-modfile, see DESIGN.md §2.2)",
-               baseline_off_cmd="cd /repo && go test -vet=off -count=1 -timeout 25m ./...", source_commits=["9621cb3", "6acbfa3"], add_only=True),
+               baseline_off_cmd="cd /repo && go test -vet=off -count=1 -timeout 25m ./...", source_commits=["cc60ee4", "9621cb3", "6acbfa3"], add_only=True),
     engines=[
         dict(name="rapid-harness", path="check", serves_properties=[], kind_free_text="python driver + in-package Go harness files (harness/**/zz_verif_*_test.go) injected with go test -overlay; pgregory.net/rapid v1.3.0 generates and shrinks; plain-JSON replays"),
     ],
